@@ -153,6 +153,7 @@ type retInfo struct {
 	vals  []Val
 	st    *State
 	pos   token.Pos
+	blk   *ssa.BasicBlock
 }
 
 type deferred struct {
@@ -822,7 +823,7 @@ func (f *frame) execBlock(b *ssa.BasicBlock, in string, st *State) {
 			for _, r := range x.Results {
 				vs = append(vs, f.val(r))
 			}
-			f.rets = append(f.rets, retInfo{guard: in, vals: vs, st: st.Clone(), pos: x.Pos()})
+			f.rets = append(f.rets, retInfo{guard: in, vals: vs, st: st.Clone(), pos: x.Pos(), blk: b})
 			f.outSt[b] = st
 			return
 		case *ssa.Panic:
@@ -841,6 +842,11 @@ func (f *frame) execBlock(b *ssa.BasicBlock, in string, st *State) {
 // obligeIn records a safety obligation raised inside (possibly inlined) code.
 func (vc *VC) obligeIn(f *frame, kind, anchor, guard, goal string, pos token.Pos, desc string) {
 	if vc.Spec != nil && vc.Spec.MayPanic && (kind == "bounds" || kind == "nil" || kind == "panic" || kind == "div" || kind == "typeassert" || kind == "makeslice") {
+		// the contract allows a panic here: not an obligation - but execution
+		// only continues past this point when the operation did not panic
+		if goal != "false" {
+			vc.assume(guard, goal)
+		}
 		return
 	}
 	if vc.Spec != nil && kind == "panic" {
